@@ -70,6 +70,7 @@ func (f *fragmentSpreadInlineVisitor) replaceFragmentSpread(selectionSetRef int,
 	var fragmentUnionIntersectsEnclosingInterface bool
 	var fragmentInterfaceIntersectsEnclosingUnion bool
 	var fragmentInterfaceIntersectsEnclosingInterface bool
+	var fragmentUnionIntersectsEnclosingUnion bool
 
 	if fragmentNode.Kind == ast.NodeKindInterfaceTypeDefinition && f.EnclosingTypeDefinition.Kind == ast.NodeKindObjectTypeDefinition {
 		enclosingTypeImplementsFragmentType =
@@ -99,6 +100,10 @@ func (f *fragmentSpreadInlineVisitor) replaceFragmentSpread(selectionSetRef int,
 		fragmentInterfaceIntersectsEnclosingUnion = f.definition.UnionNodeIntersectsInterfaceNode(f.EnclosingTypeDefinition, fragmentNode)
 	}
 
+	if f.EnclosingTypeDefinition.Kind == ast.NodeKindUnionTypeDefinition && fragmentNode.Kind == ast.NodeKindUnionTypeDefinition {
+		fragmentUnionIntersectsEnclosingUnion = f.definition.UnionNodeIntersectsUnionNode(f.EnclosingTypeDefinition, fragmentNode)
+	}
+
 	if f.EnclosingTypeDefinition.Kind == ast.NodeKindUnionTypeDefinition {
 		fragmentTypeIsMemberOfEnclosingUnionType = f.definition.NodeIsUnionMember(fragmentNode, f.EnclosingTypeDefinition)
 	}
@@ -122,7 +127,8 @@ func (f *fragmentSpreadInlineVisitor) replaceFragmentSpread(selectionSetRef int,
 		enclosingTypeIsMemberOfFragmentUnion ||
 		fragmentUnionIntersectsEnclosingInterface ||
 		fragmentInterfaceIntersectsEnclosingUnion ||
-		fragmentInterfaceIntersectsEnclosingInterface:
+		fragmentInterfaceIntersectsEnclosingInterface ||
+		fragmentUnionIntersectsEnclosingUnion:
 
 		f.operation.ReplaceFragmentSpreadWithInlineFragment(selectionSetRef, ref, replaceWith, typeCondition, directiveList)
 
